@@ -73,6 +73,7 @@ STRESS += [
     "class A { field 1 x; field int y; } defset 1 s = {} class B<1 x>;",
     "defvar a = !foreach(); defvar b = !subst(); defvar c = !foldl(); defvar d = !filter(); defvar l = !filter(x, [1, 2], !eq(x, 1));",
     "class A { bits<4> f; let f{0...9223372036854775807, 0...9223372036854775807, 0...1} = 0; let f{} = 0; let f{1-} = 0; let f{18446744073709551615} = 1; }",
+    "class A { bits<9223372036854775807> a; bits<4> b = { a, a, a }; bits<18446744073709551615> c; bits<2> d = { c, c }; bits<18446744073709551616> e; }",
     "multiclass M { def a; } defm x : M, ; multiclass N { defm y : M, ; } class C<int x>; defm dm : M, C<1 = 2>;",
     "class A<int x, int y = 0>; def d : A<x = 1, x = 2>; def e : A<y = 1>; def f : A<1, 2, 3>;",
     "class Base { int v = 0; } class A : Base; class B : Base; class Z; def a : A; def b : B; def z : Z; defvar x = !if(1, a, b); defvar y = x.v; "
